@@ -1,7 +1,7 @@
 //! Linear decision trees
 //!
 use std::cmp::Ordering;
-use std::collections::{HashMap, HashSet, VecDeque};
+use std::collections::{HashMap, VecDeque};
 use std::hash::{Hash, Hasher};
 
 use linfa::dataset::AsSingleTargets;
@@ -232,7 +232,7 @@ impl<F: Float, L: Label + std::fmt::Debug> TreeNode<F, L> {
 
             // We keep a running total of the aggregate weight in the right split
             // to avoid having to sum over the hash map
-            let total_weight = parent_class_freq.values().sum::<f32>();
+            let total_weight = ordered_weights(&parent_class_freq).sum::<f32>();
             let mut weight_on_right_side = total_weight;
             let mut weight_on_left_side = 0.0;
 
@@ -559,15 +559,15 @@ impl<F: Float, L: Label> DecisionTree<F, L> {
     /// Return features_idx of this tree (BFT)
     pub fn features(&self) -> Vec<usize> {
         // vector of feature indexes to return
-        let mut fitted_features = HashSet::new();
+        let mut fitted_features = Vec::new();
 
         for node in self.iter_nodes().filter(|node| !node.is_leaf()) {
             if !fitted_features.contains(&node.feature_idx) {
-                fitted_features.insert(node.feature_idx);
+                fitted_features.push(node.feature_idx);
             }
         }
 
-        fitted_features.into_iter().collect::<Vec<_>>()
+        fitted_features
     }
 
     /// Return the mean impurity decrease for each feature
@@ -646,23 +646,24 @@ fn make_prediction<F: Float, L: Label>(
     }
 }
 
+/// Class weights in the order of their labels, so that floating point sums over them do not
+/// depend on the iteration order of the hash map
+fn ordered_weights<L: Label>(class_freq: &HashMap<L, f32>) -> impl Iterator<Item = f32> + '_ {
+    let mut entries = class_freq.iter().collect::<Vec<_>>();
+    entries.sort_unstable_by(|a, b| a.0.cmp(b.0));
+    entries.into_iter().map(|entry| *entry.1)
+}
+
 /// Finds the most frequent class for a hash map of frequencies. If two
-/// classes have the same weight then the first class found with that
+/// classes have the same weight then the smallest class with that
 /// frequency is returned.
 fn find_modal_class<L: Label>(class_freq: &HashMap<L, f32>) -> L {
-    // TODO: Refactor this with fold_first
-
     let val = class_freq
         .iter()
-        .fold(None, |acc, (idx, freq)| match acc {
-            None => Some((idx, freq)),
-            Some((_best_idx, best_freq)) => {
-                if best_freq > freq {
-                    acc
-                } else {
-                    Some((idx, freq))
-                }
-            }
+        .max_by(|a, b| {
+            a.1.partial_cmp(b.1)
+                .unwrap_or(Ordering::Equal)
+                .then_with(|| b.0.cmp(a.0))
         })
         .unwrap()
         .0;
@@ -672,11 +673,10 @@ fn find_modal_class<L: Label>(class_freq: &HashMap<L, f32>) -> L {
 
 /// Given the class frequencies calculates the gini impurity of the subset.
 fn gini_impurity<L: Label>(class_freq: &HashMap<L, f32>) -> f32 {
-    let n_samples = class_freq.values().sum::<f32>();
+    let n_samples = ordered_weights(class_freq).sum::<f32>();
     assert!(n_samples > 0.0);
 
-    let purity = class_freq
-        .values()
+    let purity = ordered_weights(class_freq)
         .map(|x| x / n_samples)
         .map(|x| x * x)
         .sum::<f32>();
@@ -686,11 +686,10 @@ fn gini_impurity<L: Label>(class_freq: &HashMap<L, f32>) -> f32 {
 
 /// Given the class frequencies calculates the entropy of the subset.
 fn entropy<L: Label>(class_freq: &HashMap<L, f32>) -> f32 {
-    let n_samples = class_freq.values().sum::<f32>();
+    let n_samples = ordered_weights(class_freq).sum::<f32>();
     assert!(n_samples > 0.0);
 
-    class_freq
-        .values()
+    ordered_weights(class_freq)
         .map(|x| x / n_samples)
         .map(|x| if x > 0.0 { -x * x.log2() } else { 0.0 })
         .sum()
